@@ -28,6 +28,10 @@ CLAIMED = {
             "Generated-input search over (program, editor mode, row) triples incl. rows before the first line and past EOF; violation = panic / non-zero exit / believed hang / a line that is neither a well-formed %,@,$ record nor a diagnostic of the target file. Exploration.",
             "In-process candidates are confirmed on the guard-off binary; hangs believed only 3/3 under the exclusive lock.",
             "DESIGN.md §4 C04"),
+    "C06": ("property-based testing (Hypothesis: grammar-generated programs with exact statement boundaries + corpus programs with a conservative boundary filter); metamorphic relation (layout edit => row shift only)",
+            "Generated-input search over (program, layout edit) pairs; the edited program's records must equal the base records with rows after the edit shifted by the inserted line count (multiset comparison, plain and -i). Exploration.",
+            "ti is compared with itself on two different inputs; the relation is the property's own statement. Crashing/hanging runs are discarded and counted (C01/C02).",
+            "DESIGN.md §4 C06"),
 }
 
 PENDING_REASON = "check not built yet in this round (planned in DESIGN.md §3.11); no claim is made"
